@@ -47,6 +47,8 @@ structure Params where
   isInteger : Nat → Bool
   /-- `float(n)` overflows (so `math.isnan(n)` raises OverflowError) -/
   intTooBig : Int → Bool
+  /-- `Timestamp.__float__`: `float(sec) + float(nsec) / 1e9`; `none` = OverflowError from `float(sec)` -/
+  tsFloat : Int → Int → Option Nat
   /-- `re` classes for str patterns -/
   reW : Char → Bool
   reS : Char → Bool
@@ -546,11 +548,12 @@ def composeDeltas (P : Params) (deltas : List (Str × Str)) (name : Str) : PyM (
       let xs ← (splitOn ',' out).mapM (fun x => P.intE (strip x))
       pure (some xs)
 
-/-- `items[k]`: KeyError when the first regex found no such key (F9) -/
+/-- `items[k]`: KeyError when the first regex found no such key — turned into ValueError by the `try … except
+KeyError` around the five look-ups when that guard is in the source (`nhStructCatchesKeyError`) -/
 def itemGet (items : List (Str × Str)) (k : Str) : PyM Str :=
   match lookupLast k items with
   | some v => .ok v
-  | none => .error .keyError
+  | none => .error (if nhStructCatchesKeyError then .valueError else .keyError)
 
 /-- `_parse_nh_struct(text)` -/
 def parseNhStruct (P : Params) (text : Str) : PyM NatHist := do
@@ -606,29 +609,43 @@ def nhDetect (text : Str) : PyM (Option NhPos) :=
 
 def endsWithAny (suffixes : List Str) (s : Str) : Bool := suffixes.any (fun suf => endsWith suf s)
 
+/-- name and labels of a native-histogram line that has metric labels: the suffix rule on the text before the
+braces; an empty name is taken from the labels (`__name__`), the suffix rule then applies to it too when that test is
+in the source (`nhSuffixRecheck`); a label set left empty becomes `None` -/
+def nhNameLabels (suffixes : List Str) (name : Str) (labels : Labels) : PyM (Str × Option Labels) :=
+  if endsWithAny suffixes name then .error .valueError
+  else if name.isEmpty then
+    match dictGet labels sName with
+    | none => .error .valueError
+    | some n =>
+      let rest := labels.filter (fun kv => kv.1 != sName)
+      if nhSuffixRecheck && endsWithAny suffixes n then .error .valueError
+      else .ok (n, if rest.isEmpty then none else some rest)
+  else .ok (name, some labels)
+
 /-- `_parse_nh_sample(text, suffixes)` -/
-def parseNhSample (P : Params) (text : Str) (suffixes : List Str) : PyM (Option OSample) := do
-  match ← nhDetect text with
-  | none => pure none
-  | some pos =>
+def parseNhSample (P : Params) (text : Str) (suffixes : List Str) : PyM (Option OSample) :=
+  match nhDetect text with
+  | .error e => .error e
+  | .ok none => .ok none
+  | .ok (some pos) =>
     if pos.hasMetricLabels then
-      let labels ← parseLabels P.legacy (pySlice text (pos.labelsStart + 1) pos.labelsEnd) true
-      let name := pySlice text 0 pos.labelsStart
-      if endsWithAny suffixes name then throw .valueError
-      let (name, labels?) ← (if name.isEmpty then
-          match dictGet labels sName with
-          | none => (throw .valueError : PyM (Str × Option Labels))
-          | some n =>
-            let rest := labels.filter (fun kv => kv.1 != sName)
-            pure (n, if rest.isEmpty then none else some rest)
-        else pure (name, some labels))
-      let nh ← parseNhStruct P (text.drop pos.valueStart)
-      pure (some ⟨name, labels?, none, none, none, some nh⟩)
+      match parseLabels P.legacy (pySlice text (pos.labelsStart + 1) pos.labelsEnd) true with
+      | .error e => .error e
+      | .ok labels =>
+        match nhNameLabels suffixes (pySlice text 0 pos.labelsStart) labels with
+        | .error e => .error e
+        | .ok (name, labels?) =>
+          match parseNhStruct P (text.drop pos.valueStart) with
+          | .error e => .error e
+          | .ok nh => .ok (some ⟨name, labels?, none, none, none, some nh⟩)
     else
       let name := pySlice text 0 (Int.ofNat pos.valueStart - 1)
-      if endsWithAny suffixes name then throw .valueError
-      let nh ← parseNhStruct P (text.drop pos.valueStart)
-      pure (some ⟨name, none, none, none, none, some nh⟩)
+      if endsWithAny suffixes name then .error .valueError
+      else
+        match parseNhStruct P (text.drop pos.valueStart) with
+        | .error e => .error e
+        | .ok nh => .ok (some ⟨name, none, none, none, none, some nh⟩)
 
 /-! ## `_group_for_sample` -/
 
@@ -654,12 +671,21 @@ def groupForSample (s : OSample) (name typ : Str) : PyM (Option Labels) :=
 
 /-! ## timestamps as Python compares them -/
 
-/-- `a > b` between two non-`None` timestamps: `Timestamp.__gt__` / the reflected `Timestamp.__lt__` read `.sec`
-of the other operand, which a float does not have (F9) -/
+/-- `float(ts)` for a `Timestamp` -/
+def stampFloat (P : Params) (s n : Int) : PyM Nat :=
+  match P.tsFloat s n with
+  | some f => .ok f
+  | none => .error .overflowError
+
+/-- `a > b` between two non-`None` timestamps.  `Timestamp.__gt__(ts, x)` and the reflected `Timestamp.__lt__(ts, x)`
+(for `x > ts`) compare `float(ts)` with a non-Timestamp `x` when the `isinstance` guard is in the source (`tsCoerce`);
+without it they read `x.sec`, which a float does not have -/
 def tsGt (P : Params) : OTs → OTs → PyM Bool
   | .stamp s1 n1, .stamp s2 n2 => .ok (if s1 = s2 then decide (n1 > n2) else decide (s1 > s2))
-  | .stamp _ _, .flt _ => .error .attributeError
-  | .flt _, .stamp _ _ => .error .attributeError
+  | .stamp s n, .flt b =>
+    if tsCoerce then (stampFloat P s n).map (fun f => P.lt (.flt b) (.flt f)) else .error .attributeError
+  | .flt a, .stamp s n =>
+    if tsCoerce then (stampFloat P s n).map (fun f => P.lt (.flt f) (.flt a)) else .error .attributeError
   | .flt a, .flt b => .ok (P.lt (.flt b) (.flt a))
 
 /-- `a == b` on timestamps that may be `None` (`Timestamp.__eq__` checks `isinstance`; never raises) -/
@@ -911,6 +937,15 @@ def mathIsNaN (P : Params) : Option Num → PyM Bool
   | some (.flt b) => .ok (P.isNaN b)
   | none => .error .typeError
 
+/-- the NaN test of the counter-like check: `isinstance(v, float) and math.isnan(v)` when the `isinstance` guard is
+in the source (`nanGuardsFloat`), plain `math.isnan(v)` otherwise -/
+def nanTest (P : Params) (v : Option Num) : PyM Bool :=
+  if nanGuardsFloat then
+    match v with
+    | some (.flt b) => .ok (P.isNaN b)
+    | _ => .ok false
+  else mathIsNaN P v
+
 /-- line 592: `typ == 'stateset' and name not in sample.labels` -/
 def chkStatesetLabel (name : Str) (typ : Option Str) (s : OSample) : PyM Unit :=
   if typ == some tStateset then
@@ -926,8 +961,19 @@ def chkLe (P : Params) (name : Str) (s : OSample) : PyM Unit :=
     | .error e => .error e
     | .ok ls =>
       match dictGet ls sLe with
-      | none => .error .valueError                    -- .get('le', "NaN") == "NaN"
-      | some le => if le == sNaN then .error .valueError else raiseIfM (isUncanonicalNumber P le)
+      | none =>
+        if leNaNNumeric then
+          -- math.isnan(float("NaN")): `float` of the default text, then `sample.labels['le']` would be a KeyError
+          match P.floatE sNaN with
+          | .error e => .error e
+          | .ok f => if P.isNaN f then .error .valueError else .error .keyError
+        else .error .valueError                       -- .get('le', "NaN") == "NaN"
+      | some le =>
+        if leNaNNumeric then
+          match P.floatE le with
+          | .error e => .error e
+          | .ok f => if P.isNaN f then .error .valueError else raiseIfM (isUncanonicalNumber P le)
+        else if le == sNaN then .error .valueError else raiseIfM (isUncanonicalNumber P le)
   else .ok ()
 
 /-- lines 598–600 -/
@@ -1015,7 +1061,7 @@ def chkSummaryNeg (P : Params) (name : Str) (typ : Option Str) (s : OSample) : P
   if typ == some tSummary && name == s.name then raiseIfM (P.cmpOpt summaryNegCmp s.value (some (.int 0))) else .ok ()
 
 def chkNaN (P : Params) (name : Str) (s : OSample) : PyM Unit :=
-  if nanSuffixes.contains (s.name.drop name.length) then raiseIfM (mathIsNaN P s.value) else .ok ()
+  if nanSuffixes.contains (s.name.drop name.length) then raiseIfM (nanTest P s.value) else .ok ()
 
 def chkNeg (P : Params) (name : Str) (s : OSample) : PyM Unit :=
   if negSuffixes.contains (s.name.drop name.length) then raiseIfM (P.cmpOpt .lt s.value (some (.int 0))) else .ok ()
@@ -1034,7 +1080,9 @@ def postChecks (P : Params) (name : Str) (typ : Option Str) (s : OSample) : PyM 
 /-- the part of the sample branch after "which family does this sample belong to" is settled: header `h` (its
 `name` always set at this point — `None + '_bucket'` would be a TypeError) -/
 def sampleChecks (P : Params) (h : Hdr) (gr : Grp) (s : OSample) (isNh : Bool) : PyM Grp :=
-  match h.name with
+  -- `if is_nh: samples.append(sample); continue` (when that statement is in the source)
+  if isNh && nhSkipsChecks then .ok { gr with samples := gr.samples ++ [s] }
+  else match h.name with
   | none => .error .typeError
   | some name =>
     match preChecks P name h.typ s with
